@@ -30,6 +30,9 @@ def shards(tier):
                                 partition_by="auto", washes=[1], ncand=2))
             # two triples (repeated source / destination wells included): each is split on its own
             out.append(dict(part="c", dev=dev, op="transfer", sgeo=sg, dgeo=dg, k=2, steps=2 if tier == "quick" else 3, auto_split=True, partition_by="auto", washes=[1], ncand=2))
+        # history: another worklist (other device, its own max_volume) split some volume earlier in the same process
+        out.append(dict(part="c", dev=dev, op="transfer", sgeo="p2x2", dgeo="p2x2", k=1, steps=2, auto_split=True, partition_by="auto", washes=[1], ncand=1,
+                        earlier=True))
         out.append(dict(part="d", dev=dev, mds=list(range(1, 9 if tier == "quick" else 13))))
     return out
 
@@ -68,6 +71,14 @@ def scenario(ctx, p):
         ctx.ctx.update(v=v, m=m)
         return partition_volume(v, max_volume=m)
     if part == "c":
+        if p.get("earlier"):
+            E = wlops._Prefixed(ctx, "e:")
+            W0 = wlops.build(E, dict(p, dev="fluent" if p["dev"] == "evo" else "evo"))
+            try:
+                wlops.run(E, W0)
+            except Exception:  # noqa: BLE001
+                pass
+            ctx.ctx["W0"] = W0
         W = wlops.build(ctx, p)
         ctx.ctx["W"] = W
         wlops.run(ctx, W)
@@ -197,5 +208,9 @@ def describe(ctx, p, outcome):
         return f"  partition_volume({c['v']!r}, max_volume={c['m']!r}) -> {outcome[1]!r}"
     if p["part"] == "c":
         from harness import C01
-        return C01.describe(ctx, p, outcome)
+        out = C01.describe(ctx, p, outcome)
+        W0 = c.get("W0")
+        if W0 is not None:
+            out = f"  earlier, on another worklist ({W0.dev}, max_volume={W0.wl_max!r}): transfer of {[x for _, _, x in W0.pairs]!r} -> {list(W0.wl)}\n" + out
+        return out
     return f"  reagent_distribution(volume={c['v']!r}, multi_disp={c['md']}) max_volume={c['wl'].max_volume!r} -> {list(c['wl'])}"
